@@ -53,19 +53,20 @@ EntryValue(grid, e, adims) ==
   LET iv == InterpAxes(grid, [shape |-> e.shape, flat |-> e.flat], e.dims, adims, 1, 0)
   IN [dims |-> iv.dims, arr |-> iv.arr, m |-> iv.m]
 
-\* product of several metrics, laid out on the array's dimensions (in the array's order)
+\* product of several metrics (a function from registry indices to values: two entries may hold equal values, so a set
+\* of values would not do), laid out on the array's dimensions (in the array's order)
 ProductOf(vals, adims, ashape) ==
-  LET used == {d \in SeqToSet(adims) : \E v \in vals : d \in SeqToSet(v.dims)}
+  LET used == {d \in SeqToSet(adims) : \E j \in DOMAIN vals : d \in SeqToSet(vals[j].dims)}
       keep == SelectSeq([k \in 1..Len(adims) |-> k], LAMBDA k : adims[k] \in used)
       odims == [q \in 1..Len(keep) |-> adims[keep[q]]]
       oshape == [q \in 1..Len(keep) |-> ashape[keep[q]]]
       RECURSIVE Mul(_, _)
       Mul(S, idx) == IF S = {} THEN 1
-                     ELSE LET v == CHOOSE x \in S : TRUE IN
-                          Get(v.arr, [q \in 1..Len(v.dims) |-> idx[IndexOf(odims, v.dims[q])]]) * Mul(S \ {v}, idx)
+                     ELSE LET j == CHOOSE x \in S : TRUE  v == vals[j] IN
+                          Get(v.arr, [q \in 1..Len(v.dims) |-> idx[IndexOf(odims, v.dims[q])]]) * Mul(S \ {j}, idx)
       RECURSIVE SumM(_)
-      SumM(S) == IF S = {} THEN 0 ELSE LET v == CHOOSE x \in S : TRUE IN v.m + SumM(S \ {v})
-  IN [dims |-> odims, arr |-> Build(oshape, LAMBDA idx : Mul(vals, idx)), m |-> SumM(vals)]
+      SumM(S) == IF S = {} THEN 0 ELSE LET j == CHOOSE x \in S : TRUE IN vals[j].m + SumM(S \ {j})
+  IN [dims |-> odims, arr |-> Build(oshape, LAMBDA idx : Mul(DOMAIN vals, idx)), m |-> SumM(DOMAIN vals)]
 
 \* every way of picking one variable per block
 RECURSIVE Picks(_, _, _)
@@ -79,7 +80,7 @@ AllowedPicks(R, S, adims) ==
   IF Exact(R, S) # {} THEN {{j} : j \in BlockChoices(R, S, adims)}
   ELSE UNION {Picks(R, P, adims) : P \in BestPartitions(R, S)}
 MetricOfPick(grid, R, pick, adims, ashape) ==
-  ProductOf({EntryValue(grid, R[j], adims) : j \in pick}, adims, ashape)
+  ProductOf([j \in pick |-> EntryValue(grid, R[j], adims)], adims, ashape)
 PickInterpolates(grid, R, pick, adims) == \E j \in pick : ~AtPos(R[j], adims)
 PickInterpolable(grid, R, pick, adims) == \A j \in pick : Interpolable(grid, R[j].dims, adims)
 =============================================================================
